@@ -22,6 +22,15 @@ var commonMounts = []string{
 }
 
 var harnesses = map[string]*harnessConfig{
+	"h7": {
+		Package: ".", TestHosted: true,
+		RootPkgs: rootInstrumented,
+		Mounts: append(append([]string{}, commonMounts...),
+			".=sim/harness/h7",
+			"internal/configstore=sim/shims/configstore",
+			"internal/crashmonitor=sim/shims/crashmonitor",
+			"internal/counter=sim/shims/counter"),
+	},
 	"h2": {
 		Package: "./cmd/gotelemetry", TestHosted: true,
 		// internal/counter is left uninstrumented here: the uploader only parses
@@ -212,5 +221,18 @@ var props = map[string]*propConfig{
 		Stub:        []string{"internal/configstore.Download replaced by a stub that hands out the simulated config store's current version (the real one runs `go mod download`)", "upload server: a policy stub deciding each request's fate (200 / 4xx / 5xx / no answer / processed-but-answer-lost / duplicate delivery); its verdict on a given body is stable", "counter files are produced by the independent encoder (refformat)", "crypto/rand.Reader replaced so that X is chosen by the tape", "Go scheduler, wall clock"},
 		Assumptions: []string{"sub-directories do not carry data suffixes (whether a directory called x.json is a report is not decided by the statement)"},
 		Probes:      []string{"clean"},
+	},
+	"C16": {
+		Harness: "h7", Level: "exploration",
+		Families: []family{
+			{Name: "decision-table", Flags: map[string]string{"family": "table"}, Quick: 2400, Thorough: 200000},
+			{Name: "token-within-24h", Flags: map[string]string{"family": "within24h"}, Quick: 2400, Thorough: 200000},
+		},
+		QuickBudget: 100 * time.Second, ThoroughBudget: 12 * time.Minute, Chunk: 50,
+		Rule:        "one run = 2..8 starter processes (child marker unset / 1 / 2 / junk, crash-reporting flag, upload flag) calling the real Start concurrently with mode on / local / off / missing / garbage and the upload token absent / fresh / stale (incl. exactly 24 h), interleaved at file-system-call granularity (stat token, remove, exclusive create), some starters hours apart; spawned children run the real child path (marker rewrite, counter.Open, upload.Run) and the stubbed config download spawns a descendant that calls Start again; checked at every spawn: mode not off, spawner not a telemetry child or descendant, upload flag only with a token acquired in this call and requested, otherwise crash reporting requested; mode off: no mutating call, directory unchanged; within-24h family: at most one token acquisition (none if a fresh token exists)",
+		Real:        []string{"Start, parent, startChild, child, uploaderChild, acquireUploadToken (start.go)", "counter.Open / internal/counter", "internal/upload.Run", "internal/telemetry"},
+		Stub:        []string{"process creation, environment, os.Exit, log.Fatal: simulated process table", "internal/crashmonitor.Parent/Child (they take over crash output and stdin)", "internal/configstore.Download: spawns a simulated `go mod download` descendant that calls Start with the inherited environment, then returns an empty config", "upload server (always 200)", "clock and file modification times"},
+		Assumptions: []string{"simulated processes share one address space: package-level state of internal/counter (the default file) is shared by them", "the statement is only-if: whether a child must be launched when permitted is not checked"},
+		Probes:      []string{"spawned", "token-acquired", "mode-off", "token-2"},
 	},
 }
